@@ -148,9 +148,144 @@ func c07body(c c07cfg) func(x *vsched.Exec) {
 	}
 }
 
+
+// ---- batches with per-command TTLs and mixed cache states
+
+type c07bcfg struct {
+	adapter bool
+	warm    int   // bit i: key i was read (and cached, TTL 10s) 20ms before the batch
+	short   int   // bit i: command i of the batch carries the short client TTL (100ms), otherwise 10s
+	spttl   int64 // server PTTL of every key when the batch is executed (-1: no expiry)
+	dup     bool  // the batch ends with a duplicate of its first command, carrying the opposite TTL
+}
+
+func (c c07bcfg) name() string {
+	return fmt.Sprintf("batch/adapter=%v/warm=%03b/short=%03b/spttl=%d/dup=%v", c.adapter, c.warm, c.short, c.spttl, c.dup)
+}
+
+func c07batch(c c07bcfg) func(x *vsched.Exec) {
+	return func(x *vsched.Exec) {
+		keys := []string{"k0", "k1", "k2"}
+		e := vwNew(func(o *ClientOption, srv *simredis.Server, n *simnet.Net) {
+			if c.adapter {
+				o.NewCacheStoreFn = func(CacheStoreOption) CacheStore {
+					return NewSimpleCacheAdapter(&c06map{m: map[string]RedisMessage{}})
+				}
+			}
+		})
+		if e.err != nil {
+			x.Fail("client setup failed", "%v", e.err)
+			return
+		}
+		const long, short = 10 * time.Second, 100 * time.Millisecond
+		epochMs := vsched.Epoch / 1e6
+		ttlOf := func(i int) time.Duration {
+			if c.short>>uint(i)&1 == 1 {
+				return short
+			}
+			return long
+		}
+		type obs struct {
+			hit  bool
+			pxat int64
+		}
+		vsched.GoNamed("caller", func() {
+			ctx := context.Background()
+			time.Sleep(7 * time.Millisecond)
+			for _, k := range keys {
+				if c.spttl >= 0 {
+					e.srv.Do("SET", k, "v-"+k, "PX", fmt.Sprint(c.spttl+20))
+				} else {
+					e.srv.Do("SET", k, "v-"+k)
+				}
+			}
+			want := make([]int64, len(keys)) // expected expiry (ms after the epoch) per key
+			warmStart := x.Elapsed()
+			for i, k := range keys {
+				if c.warm>>uint(i)&1 == 1 {
+					e.client.DoCache(ctx, e.client.B().Get().Key(k).Cache(), long)
+					want[i] = (warmStart + long).Milliseconds()
+					if c.spttl >= 0 && warmStart.Milliseconds()+c.spttl+20 < want[i] {
+						want[i] = warmStart.Milliseconds() + c.spttl + 20
+					}
+				}
+			}
+			time.Sleep(20*time.Millisecond - (x.Elapsed() - warmStart))
+			start := x.Elapsed()
+			var batch []CacheableTTL
+			idx := []int{0, 1, 2}
+			for i, k := range keys {
+				batch = append(batch, CT(e.client.B().Get().Key(k).Cache(), ttlOf(i)))
+			}
+			if c.dup {
+				// same command again with the other TTL: it joins the first one's entry (hit or pending), whose expiry stands
+				other := long
+				if ttlOf(0) == long {
+					other = short
+				}
+				batch = append(batch, CT(e.client.B().Get().Key(keys[0]).Cache(), other))
+				idx = append(idx, 0)
+			}
+			rs := e.client.DoMultiCache(ctx, batch...)
+			for i := range keys {
+				if c.warm>>uint(i)&1 == 0 {
+					want[i] = (start + ttlOf(i)).Milliseconds()
+					if c.spttl >= 0 && start.Milliseconds()+c.spttl < want[i] {
+						want[i] = start.Milliseconds() + c.spttl
+					}
+				}
+			}
+			var out []string
+			for p, r := range rs {
+				i := idx[p]
+				m, err := r.ToMessage()
+				if err != nil {
+					x.Fail("batch read failed", "position %d: %v", p, err)
+					return
+				}
+				if v, _ := m.ToString(); v != "v-"+keys[i] {
+					x.Fail("batch read returned a wrong value", "position %d (%s): %q", p, keys[i], v)
+				}
+				wasWarm := c.warm>>uint(i)&1 == 1
+				if m.IsCacheHit() != wasWarm && p < len(keys) {
+					x.Fail("hit flag of a batch position is wrong", "%s position %d: hit=%v, key cached before=%v", c.name(), p, m.IsCacheHit(), wasWarm)
+				}
+				if got := m.CachePXAT() - epochMs; got != want[i] {
+					x.Fail("CachePXAT of a batch position differs from min(start+its own ttl, arrival+pttl)", "%s position %d (%s): CachePXAT=+%dms want +%dms (batch start +%v, client ttl %v, cached before=%v)", c.name(), p, keys[i], got, want[i], start, ttlOf(i), wasWarm)
+				}
+				out = append(out, fmt.Sprintf("%s:hit=%v,+%d", keys[i], m.IsCacheHit(), m.CachePXAT()-epochMs))
+			}
+			// probe each key one millisecond before and at its expected expiry (only expiries that are near)
+			for i, k := range keys {
+				if want[i] > (start + time.Second).Milliseconds() {
+					continue
+				}
+				for _, d := range []int64{-1, 0} {
+					at := time.Duration(want[i]+d) * time.Millisecond
+					if w := at - x.Elapsed(); w > 0 {
+						time.Sleep(w)
+					}
+					if x.Elapsed() != at {
+						continue // an earlier probe already passed this instant
+					}
+					m, _ := e.client.DoCache(ctx, e.client.B().Get().Key(k).Cache(), long).ToMessage()
+					if m.IsCacheHit() != (d < 0) {
+						x.Fail("cache hit/miss at the expiry boundary is wrong", "%s: %s read at +%v, expiry +%dms: hit=%v", c.name(), k, at, want[i], m.IsCacheHit())
+					}
+					if d == 0 {
+						want[i] = 1 << 60
+					}
+				}
+			}
+			x.Outcome = strings.Join(out, " ")
+		})
+		x.Run()
+	}
+}
+
 func TestVerif_C07(t *testing.T) {
 	vrun.Main(t, "C07", func(r *vrun.Run) {
-		r.Rule = "full product of client TTL {50ms,100ms,1h} x server PTTL {none,1,49,50,51,100,150,missing key} x static-TTL flag x reply latency {0,10ms,60ms} x API {DoCache, DoMultiCache, MGET, adapter store} x second read at expiry-1ms / expiry / expiry+1ms on the virtual clock; one deterministic execution per case; oracle: CachePXAT = min(start+ttl, arrival+pttl unless static), hit iff now < expiry; non-trivial = server PTTL shorter than client TTL"
+		r.Rule = "full product of client TTL {50ms,100ms,1h} x server PTTL {none,1,49,50,51,100,150,missing key} x static-TTL flag x reply latency {0,10ms,60ms} x API {DoCache, DoMultiCache, MGET, adapter store} x second read at expiry-1ms / expiry / expiry+1ms on the virtual clock; one deterministic execution per case; plus DoMultiCache batches of 3 keys (+ optional duplicate) x every subset already cached x every assignment of {100ms,10s} client TTLs to the positions x server PTTL {none,60ms,5s} x {LRU, adapter}, each position checked against its own TTL and probed at expiry-1ms / expiry; oracle: CachePXAT = min(start+ttl, arrival+pttl unless static), hit iff now < expiry; non-trivial = server PTTL shorter than client TTL"
 		ms := time.Millisecond
 		n := 0
 		for _, api := range []string{"get", "multi", "mget", "adapter"} {
@@ -177,6 +312,24 @@ func TestVerif_C07(t *testing.T) {
 				}
 			}
 		}
+		nb := 0
+		for _, adapter := range []bool{false, true} {
+			for warm := 0; warm < 8; warm++ {
+				for short := 0; short < 8; short++ {
+					for _, spttl := range []int64{-1, 60, 5000} {
+						for _, dup := range []bool{false, true} {
+							nb++
+							if !r.Mine(n+nb) || r.TimeUp() {
+								continue
+							}
+							c := c07bcfg{adapter: adapter, warm: warm, short: short, spttl: spttl, dup: dup}
+							vexp.Run(r, vexp.Prog{Name: c.name(), NoShard: true, Delay: -1, Budget: vsched.Budget{MaxPreempt: 0}, Opts: vsched.Options{Horizon: 40000, MaxVirtual: 3 * time.Hour}, Body: c07batch(c)})
+						}
+					}
+				}
+			}
+		}
+		r.Bounds["batch_cases"] = nb
 		delete(r.Bounds, "programs") // one entry per case would bloat the evidence
 		r.Bounds["cases"] = n
 		r.Assume("server PTTL is the key's PTTL when the server executes the read; reply latency is modelled by withholding the reply for the given virtual time")
